@@ -1,14 +1,14 @@
 SPECIFICATION MSpec
 CONSTANTS
   Routers = {"P", "L"}
-  Ops = {"Authorize", "Login", "Callback", "CodeExchange", "Refresh"}
+  Ops = {"Authorize", "Login", "Callback", "CodeExchange", "TokenExchange", "Revoke", "Expire"}
   MaxReq = 3
   MaxCode = 4
-  MaxAT = 6
+  MaxAT = 8
   MaxDev = 3
   MaxSteps = 99
   Seeded = FALSE
-  Vary = {"post", "refresh"}
+  Vary = {"policy"}
   Narrow = TRUE
   Depth = 16
 INVARIANT Emit
